@@ -136,6 +136,15 @@ class Driver:
         self.sim = Sim(ctx.scratch, self.flow_text, wid,
                        run_opts=run_opts)
         self.sim._script_for = self._script_for
+        self.after_loop: List[Callable] = []
+        self.after_cmd: List[Callable] = []
+        self.model = Model(spec)
+
+    async def loop(self) -> bool:
+        alive = await self.sim.loop()
+        for fn in self.after_loop:
+            fn(self)
+        return alive
 
     def _script_for(self, cycle, name, sn):
         p = self.to_int.get(cycle)
@@ -145,10 +154,16 @@ class Driver:
     async def start(self, **opts):
         return await self.sim.start(**opts)
 
-    async def step(self, op, n) -> None:
+    COMMANDS = (
+        'hold', 'release', 'hold-point', 'release-hold-point', 'trigger',
+        'remove', 'set', 'pause', 'resume', 'stop-point', 'stop-task',
+        'stop-clean', 'stop-now', 'kill', 'reload',
+    )
+
+    async def step(self, op, n, *rest) -> None:
         sim = self.sim
         if op == 'loop':
-            await sim.loop()
+            await self.loop()
         elif op == 'ret':
             pend = sim.pending_cmds()
             if pend:
@@ -170,6 +185,8 @@ class Driver:
             sim.clock.advance([1, 10, 60, 600, 3600, 86400, 5, 30][n % 8])
         elif op == 'poll':
             await self.cmd_poll(n)
+        elif op in self.COMMANDS:
+            await getattr(self, 'cmd_' + op.replace('-', '_'))(n, *rest)
         else:
             raise ValueError(op)
 
@@ -186,6 +203,151 @@ class Driver:
         t = tasks[n % len(tasks)]
         await commands.run_cmd(commands.poll_tasks(sim.schd, [t.identity]))
         sim.ev('cmd-poll', task=t.identity)
+
+    # -- commands ------------------------------------------------------------
+    def instance_ids(self) -> List[str]:
+        """All model instances as relative IDs, in a fixed order."""
+        return [f'{self.to_str[p]}/{t}' for (t, p) in self.model.instances()]
+
+    def pool_ids(self, *statuses) -> List[str]:
+        tasks = self.sim.schd.pool.get_tasks()
+        if statuses:
+            tasks = [t for t in tasks if t.state(*statuses)]
+        return sorted(t.identity for t in tasks)
+
+    def pick(self, n, prefer_pool=True, statuses=()) -> Optional[str]:
+        """Even n: the n/2-th pool task; odd n: the n/2-th model instance
+        (may be finished, or not yet spawned)."""
+        pool = self.pool_ids(*statuses) if self.sim.running else []
+        allids = self.instance_ids()
+        if n % 2 == 0 and pool:
+            return pool[(n // 2) % len(pool)]
+        if statuses:
+            return pool[(n // 2) % len(pool)] if pool else None
+        if allids:
+            return allids[(n // 2) % len(allids)]
+        return None
+
+    async def _run(self, name, gen, **info):
+        from cylc.flow import commands
+        from cylc.flow.exceptions import CylcError, InputError
+        sim = self.sim
+        before = sim.pool_snapshot()
+        err = None
+        try:
+            await commands.run_cmd(gen)
+        except (CylcError, InputError, ValueError) as exc:
+            err = f'{type(exc).__name__}: {exc}'
+        sim.ev('cmd', cmd=name, err=err, before=before,
+               after=sim.pool_snapshot(), **info)
+        for fn in self.after_cmd:
+            fn(self, name)
+
+    async def cmd_hold(self, n):
+        from cylc.flow import commands
+        id_ = self.pick(n)
+        if id_ and self.sim.running:
+            await self._run('hold', commands.hold(self.sim.schd, [id_]),
+                            task=id_)
+
+    async def cmd_release(self, n):
+        from cylc.flow import commands
+        id_ = self.pick(n)
+        if id_ and self.sim.running:
+            await self._run('release', commands.release(self.sim.schd, [id_]),
+                            task=id_)
+
+    async def cmd_hold_point(self, n):
+        from cylc.flow import commands
+        if not self.sim.running:
+            return
+        p = self.spec['icp'] + n % (self.spec['fcp'] - self.spec['icp'] + 1)
+        await self._run('hold-point', commands.set_hold_point(
+            self.sim.schd, self.to_str[p]), point=p)
+
+    async def cmd_release_hold_point(self, n):
+        from cylc.flow import commands
+        if self.sim.running:
+            await self._run('release-hold-point',
+                            commands.release_hold_point(self.sim.schd))
+
+    async def cmd_trigger(self, n, flow=None, wait=False):
+        from cylc.flow import commands
+        id_ = self.pick(n)
+        if id_ and self.sim.running:
+            await self._run('trigger', commands.force_trigger_tasks(
+                self.sim.schd, [id_], list(flow or []), flow_wait=wait),
+                task=id_, flow=list(flow or []))
+
+    async def cmd_remove(self, n, flow=None):
+        from cylc.flow import commands
+        id_ = self.pick(n)
+        if id_ and self.sim.running:
+            await self._run('remove', commands.remove_tasks(
+                self.sim.schd, [id_], list(flow or [])),
+                task=id_, flow=list(flow or []))
+
+    async def cmd_set(self, n, outputs=None, prereqs=None, flow=None,
+                      wait=False):
+        from cylc.flow import commands
+        id_ = self.pick(n)
+        if id_ and self.sim.running:
+            await self._run('set', commands.set_prereqs_and_outputs(
+                self.sim.schd, [id_], list(flow or []),
+                outputs=outputs, prerequisites=prereqs, flow_wait=wait),
+                task=id_, outputs=outputs, prereqs=prereqs,
+                flow=list(flow or []))
+
+    async def cmd_pause(self, n):
+        from cylc.flow import commands
+        if self.sim.running:
+            await self._run('pause', commands.pause(self.sim.schd))
+
+    async def cmd_resume(self, n):
+        from cylc.flow import commands
+        if self.sim.running:
+            await self._run('resume', commands.resume(self.sim.schd))
+
+    async def cmd_stop_point(self, n):
+        from cylc.flow import commands
+        if not self.sim.running:
+            return
+        p = self.spec['icp'] + n % (self.spec['fcp'] - self.spec['icp'] + 1)
+        await self._run('stop-point', commands.stop(
+            self.sim.schd, None, cycle_point=self.to_str[p]), point=p)
+
+    async def cmd_stop_task(self, n):
+        from cylc.flow import commands
+        id_ = self.pick(n)
+        if id_ and self.sim.running:
+            await self._run('stop-task', commands.stop(
+                self.sim.schd, None, task=id_), task=id_)
+
+    async def cmd_stop_clean(self, n):
+        from cylc.flow import commands
+        from cylc.flow.workflow_status import StopMode
+        if self.sim.running:
+            await self._run('stop-clean', commands.stop(
+                self.sim.schd, StopMode.REQUEST_CLEAN))
+
+    async def cmd_stop_now(self, n):
+        from cylc.flow import commands
+        from cylc.flow.workflow_status import StopMode
+        if self.sim.running:
+            await self._run('stop-now', commands.stop(
+                self.sim.schd, StopMode.REQUEST_NOW))
+
+    async def cmd_kill(self, n):
+        from cylc.flow import commands
+        id_ = self.pick(n, statuses=('submitted', 'running', 'preparing'))
+        if id_ and self.sim.running:
+            await self._run('kill', commands.kill_tasks(
+                self.sim.schd, [id_]), task=id_)
+
+    async def cmd_reload(self, n):
+        from cylc.flow import commands
+        if self.sim.running:
+            await self._run('reload', commands.reload_workflow(self.sim.schd))
 
     async def drain(self, cap=2000, quiet_needed=25) -> Tuple[bool, bool]:
         """Deterministic fair schedule until shutdown or quiescence.
@@ -207,7 +369,7 @@ class Driver:
                 sim.deliver(m)
                 progressed = True
             n0 = len(sim.trace)
-            alive = await sim.loop()
+            alive = await self.loop()
             if not alive:
                 return True, False
             # did the iteration do anything observable?
@@ -244,3 +406,80 @@ def run_async(coro):
         finally:
             asyncio.set_event_loop(None)
             loop.close()
+
+
+# ---------------------------------------------------------------------------
+
+class SCase:
+    """async context manager: start a generated case, tear it down.
+
+        async with SCase(case, ctx) as sc:
+            if sc.rejected: ...
+            await sc.run_schedule(); shut, quiescent = await sc.drain()
+    """
+
+    def __init__(self, case, ctx, run_opts=None, start_opts=None,
+                 flow_text=None):
+        self.case = case
+        self.ctx = ctx
+        self.spec = case['spec']
+        self.outcomes = case.get('outcomes') or {}
+        self.schedule = case.get('schedule') or []
+        self.drv = Driver(self.spec, self.outcomes, ctx, run_opts=run_opts,
+                          flow_text=flow_text)
+        self.sim = self.drv.sim
+        self.model = self.drv.model
+        self.start_opts = start_opts or {}
+        self.rejected: Optional[str] = None
+        self.shut = False
+        self.quiescent = False
+
+    async def __aenter__(self):
+        from cylc.flow.exceptions import CylcError
+        from cylc.flow.parsec.exceptions import ParsecError
+        sim = self.sim
+        try:
+            await self.drv.start(**self.start_opts)
+        except (CylcError, ParsecError) as exc:
+            self.rejected = type(exc).__name__
+            self.ctx.col.rejected += 1
+            return self
+        if sim.crashed is not None or not sim.running:
+            exc = sim.crashed or sim.shutdown_reason
+            if isinstance(exc, (CylcError, ParsecError)) and sim.iteration == 0:
+                self.rejected = type(exc).__name__
+                self.ctx.col.rejected += 1
+        return self
+
+    async def __aexit__(self, *a):
+        await self.sim.force_stop()
+        self.sim.cleanup()
+        return False
+
+    async def run_schedule(self, schedule=None):
+        for step in (self.schedule if schedule is None else schedule):
+            if not self.sim.running:
+                break
+            await self.drv.step(*step)
+
+    async def drain(self, **kw):
+        self.shut, self.quiescent = await self.drv.drain(**kw)
+        return self.shut, self.quiescent
+
+    @property
+    def inconclusive(self):
+        return not self.shut and not self.quiescent
+
+    def crash_violations(self, prop: str):
+        """Scheduler aborted with anything but a deliberate stop."""
+        from cylc.flow.scheduler import SchedulerStop
+        from vf.core import Violation, exc_sig
+        sim = self.sim
+        reason = sim.shutdown_reason
+        if sim.crashed is not None or (
+                reason is not None and not isinstance(reason, SchedulerStop)):
+            exc = sim.crashed or reason
+            return [Violation(
+                f'{prop}:scheduler-crash:' + exc_sig(exc),
+                f'scheduler aborted with {exc!r}')]
+        return []
